@@ -197,6 +197,16 @@ thread_local! {
     static WD_SLOT: RefCell<Option<usize>> = const { RefCell::new(None) };
 }
 
+/// A failure that the harness attributes to itself (its printer and its parser disagree, a scratch
+/// directory cannot be set up ...) is not something darklua did: it is counted as a discard named
+/// "harness problem", never reported as a violation of the property.
+fn harness_guard(r: CaseResult) -> CaseResult {
+    match r {
+        CaseResult::Fail(f) if f.message.starts_with("harness:") || f.message.starts_with("HARNESS PROBLEM") => CaseResult::Discard("harness problem (not a darklua defect)"),
+        r => r,
+    }
+}
+
 impl RunCtx {
     pub fn new(prop: &str, tier: Tier, seed: u64, verif_dir: PathBuf) -> RunCtx {
         let threads = std::env::var("VERIF_THREADS")
@@ -310,6 +320,7 @@ impl RunCtx {
     where
         F: Fn(&[u8], &mut Stats) -> CaseResult + Sync,
     {
+        let f = move |tape: &[u8], st: &mut Stats| harness_guard(f(tape, st));
         if let Some((p, tape)) = self.single.lock().unwrap().as_ref() {
             if p == phase {
                 let mut st = Stats::default();
@@ -525,6 +536,7 @@ impl RunCtx {
     where
         F: Fn(u64, &mut Stats) -> CaseResult + Sync,
     {
+        let f = move |i: u64, st: &mut Stats| harness_guard(f(i, st));
         if self.failed() || n == 0 || self.child.is_some() || self.single.lock().unwrap().is_some() {
             return;
         }
